@@ -82,11 +82,12 @@ def generate(ctx, rng):
         c.update(kw)
         return ("v", n), c
 
-    for name, enum in ENUMS.items():
-        for m in enum.list():
-            for sp in _spellings(m.name):
-                yield case([[name, sp, int(m)]])
-            yield case([[name, str(int(m)), int(m)]])
+    for rep in range(1 if quick else 6):
+        for name, enum in ENUMS.items():
+            for m in enum.list():
+                for sp in _spellings(m.name):
+                    yield case([[name, sp, int(m)]])
+                yield case([[name, str(int(m)), int(m)]])
     for v in [1, 19, 21, 33, 50, 55, 79, 99, 101]:
         yield case([["fan_speed", str(v), v]])
     for name in BOOLS:
@@ -117,8 +118,8 @@ def generate(ctx, rng):
     rng.shuffle(pairs)
     for a, b in pairs[: (350 if quick else 20000)]:
         yield case([a, b])
-    for _ in range(60 if quick else 3000):
-        k = rng.randint(3, 6)
+    for _ in range(60 if quick else 40000):
+        k = rng.randint(2, 6)
         chosen, names = [], set()
         for s in rng.sample(singles, 30):
             if s[0] not in names:
